@@ -70,10 +70,69 @@ def run(prog, run):
                        'code-shape clause, not Qt\'s TLS implementation.')
     run.assume('QSslSocket::isEncrypted() is true exactly when the TLS handshake has completed (Qt contract)')
     run.assume('application calls into the send API before connected() are outside the quantifier (remote end and configuration)')
+    r0(prog, run)
     r1(prog, run)
     ungated, tree, edges = r2(prog, run)
     r3(prog, run)
     r4(prog, run)
+
+
+# --------------------------------------------------------------------------- R0
+ORACLES = {'QSslSocket::isEncrypted': False}     # callee (or 'field:<name>') -> value in the "not yet encrypted" environment
+
+
+def r0(prog, run):
+    """which predicates the gates may consult for "the link is encrypted": the live QSslSocket state, wrappers that return exactly that,
+    or a cached member flag provided it is cleared whenever a new connection starts"""
+    rid = run.rule('C04.R0', 'the gates consult the live TLS state of the socket (QSslSocket::isEncrypted, directly or through a wrapper), or a cached flag that '
+                             'every new connection clears', floor=1)
+    for k in list(ORACLES):
+        if k != 'QSslSocket::isEncrypted':
+            del ORACLES[k]
+    run.instance(rid)
+    run.ok(rid, 'Qt', 'QSslSocket::isEncrypted is the base oracle', nontrivial=False)
+    for f in prog.fns.values():
+        if f.is_lambda or not in_scope(f) or f.params or f.name not in ('isEncrypted', 'encrypted', 'isSecure', 'isTlsActive'):
+            continue
+        rets = [n for _, n in f.returns() if n.get('e') is not None]
+        if len(rets) != 1:
+            continue
+        e = f.nodes[f.skip(rets[0]['e'])]
+        run.instance(rid)
+        if e['k'] == 'call' and f.cname(e) in ORACLES:
+            ORACLES[f.qname] = False
+            run.ok(rid, f.loc(), '%s returns %s' % (f.qname, f.cname(e)))
+            continue
+        if e['k'] == 'mem':
+            fld = e['f']
+            # every connection start must clear the flag: connectToHost (all paths) or the slot of QAbstractSocket::connected
+            starters = []
+            for g in prog.fns.values():
+                if g.qname.endswith('::connectToHost') and (g.record or '') == (f.record or ''):
+                    starters.append(g)
+            for c in connects(prog, [g for g in prog.fns.values() if in_scope(g)]):
+                if c['signal']['qname'] == 'QAbstractSocket::connected' and c['kind'] == 'lambda':
+                    starters.extend(c['target'])
+            cleared = False
+            for g in starters:
+                for i, n in g.all_nodes('assign'):
+                    if g.nodes[g.skip(n['l'])].get('f') == fld and g.const_value(n['r']) == ('bool', False):
+                        pos = g.pos(i)
+                        if pos and (pos[0] == g.entry or ('b', pos[0]) in g.pdom().get(('b', g.entry), set())):
+                            cleared = True
+            if cleared:
+                ORACLES[f.qname] = False
+                ORACLES['field:' + fld] = False
+                run.ok(rid, f.loc(), '%s returns the cached flag %s, which every new connection clears' % (f.qname, fld.split('::')[-1]))
+            else:
+                ORACLES[f.qname] = False     # the remaining rules treat it as the gate predicate; the defect is reported here
+                run.violation(rid, '%s#stale-encrypted-flag' % f.qname, f.loc(),
+                              '%s answers from the cached flag %s, which is not cleared when a new connection starts (connectToHost / the connected slot): after a '
+                              'TLS session that ended without disconnectFromHost() the next, unencrypted connection is taken for encrypted and the TLS gates are skipped'
+                              % (f.qname, fld.split('::')[-1]))
+            continue
+        run.info(rid, f.loc(), '%s is not recognised as an encryption predicate' % f.qname)
+    TLS_PENDING.update(ORACLES)
 
 
 # --------------------------------------------------------------------------- R1
@@ -83,11 +142,12 @@ def r1(prog, run):
     fn = prog.fn(GATE)
     mode = prog.enum('QXmppStreamFeatures::Mode')
     remotes = [('enum', 'QXmppStreamFeatures::' + e['name']) for e in mode['enumerators']]
-    needed = {'QSslSocket::isEncrypted', 'QXmppConfiguration::streamSecurityMode', 'QXmppStreamFeatures::tlsMode',
-              'QSslSocket::supportsSsl'}
+    needed = {'QXmppConfiguration::streamSecurityMode', 'QXmppStreamFeatures::tlsMode', 'QSslSocket::supportsSsl'}
     present = {fn.cname(n) for _, n in fn.calls()}
     if not needed <= present:
         raise AnalysisBroken('C04.R1: handleStarttls no longer reads %s' % sorted(needed - present))
+    if not (present & set(ORACLES)):
+        raise AnalysisBroken('C04.R1: handleStarttls no longer asks whether the socket is encrypted (known predicates: %s)' % sorted(ORACLES))
 
     def transfer(f, nid, st):
         n = f.nodes[nid]
@@ -107,7 +167,7 @@ def r1(prog, run):
     for remote in remotes:
         for ssl in (True, False):
             run.instance(rid)
-            ev = cfgx.Evaluator(fn, {'QSslSocket::isEncrypted': False,
+            ev = cfgx.Evaluator(fn, {**ORACLES,
                                      'QXmppConfiguration::streamSecurityMode': ('enum', 'QXmppConfiguration::TLSRequired'),
                                      'QXmppStreamFeatures::tlsMode': remote,
                                      'QSslSocket::supportsSsl': ssl})
@@ -357,7 +417,7 @@ def r3(prog, run):
             if ns_call and ns_stream:
                 return (bo[0] == '!=',)
         return None
-    ev = cfgx.Evaluator(fn, {'QSslSocket::isEncrypted': False,
+    ev = cfgx.Evaluator(fn, {**ORACLES,
                              'QXmppConfiguration::streamSecurityMode': ('enum', 'QXmppConfiguration::TLSRequired'),
                              'QXmppStreamFeatures::isStreamFeatures': False}, custom=custom)
 
